@@ -36,10 +36,11 @@ type TxSpec struct {
 	Vote       bool  `json:"vote"`
 	Failed     bool  `json:"failed"`
 	NoMeta     bool  `json:"nometa"`
-	DataFrames int   `json:"dframes"` // >=1
-	MetaFrames int   `json:"mframes"` // >=1 (ignored when NoMeta)
-	Pad        int   `json:"pad"`     // extra instruction-data bytes
-	MetaPad    int   `json:"mpad"`    // extra incompressible log bytes in metadata
+	DataFrames int   `json:"dframes"`   // >=1
+	MetaFrames int   `json:"mframes"`   // >=1 (ignored when NoMeta)
+	Pad        int   `json:"pad"`       // extra instruction-data bytes
+	MetaPad    int   `json:"mpad"`      // extra incompressible log bytes in metadata
+	SigPrefix  int   `json:"sigprefix"` // when > 0: force the first two signature bytes to uint16(SigPrefix-1), little endian
 }
 
 type EntrySpec struct {
@@ -343,8 +344,12 @@ func (b *builder) tx(bs BlockSpec, ts TxSpec, pos int) (*TxTruth, error) {
 		idx = append(idx, uint16(i))
 	}
 	data := append([]byte{2, 0, 0, 0}, det(seed, "ixdata", ts.SigID, 8+ts.Pad)...)
+	sig0 := Sig(seed, ts.SigID)
+	if ts.SigPrefix > 0 {
+		sig0[0], sig0[1] = byte(ts.SigPrefix-1), byte((ts.SigPrefix-1)>>8)
+	}
 	tx := &solana.Transaction{
-		Signatures: []solana.Signature{Sig(seed, ts.SigID)},
+		Signatures: []solana.Signature{sig0},
 		Message: solana.Message{
 			AccountKeys:     keys,
 			Header:          solana.MessageHeader{NumRequiredSignatures: 1, NumReadonlySignedAccounts: 0, NumReadonlyUnsignedAccounts: 1},
